@@ -79,6 +79,9 @@ class ConfigNodeMeta(NamespaceableMeta):
                             del kwargs[arg_name]
                             continue
                         setattr(value, '_' + arg_name, kwargs[arg_name])
+                        if arg_name == 'priority' and value._is_composed():
+                            for child in value.ayns.nodes():
+                                child._priority = kwargs[arg_name]
                 if any(k.startswith('implicit_') for k in kwargs.keys()):
                     value._propagate_implicit_values()
 
